@@ -122,6 +122,9 @@ class RequestHandlerBase(MethodView):
     # used as a time span (one hundred years)
     MAX_TIME_SPAN: int = 100 * 366 * 24 * 3600
 
+    # largest time shift buffer depth in seconds (about 58 days)
+    MAX_TIME_SHIFT_BUFFER_DEPTH: int = 5000000
+
     # largest number of events in one manifest
     MAX_EVENT_COUNT: int = 10000
 
@@ -194,6 +197,10 @@ class RequestHandlerBase(MethodView):
             value = getattr(options, name)
             if value is not None and abs(value) > RequestHandlerBase.MAX_TIME_SPAN:
                 raise ValueError(f'{name} {value} is out of range')
+        depth = options.timeShiftBufferDepth
+        if depth is not None and depth > RequestHandlerBase.MAX_TIME_SHIFT_BUFFER_DEPTH:
+            # a SegmentTimeline lists every segment of the time shift buffer
+            raise ValueError(f'timeShiftBufferDepth {depth} is too large')
 
     def has_http_range(self) -> bool:
         return 'range' in flask.request.headers
